@@ -61,18 +61,92 @@ theorem analyse_stag (c : Config α) (s s' : State α) (st : Status)
   all_goals simp_all
 
 
+/-- `_set_new_defect` = `_analyse_defect` of an intermediate state, except that a `success` resting on a defect that was
+    not computed is reported as `max_iter` -/
+theorem setNew_analyse (c : Config α) (s s' : State α) (fin : Bool) (d : α) (st : Status)
+    (h : setNewDefect c s fin d = (st, s')) :
+    ∃ (s2 : State α) (stRaw : Status), analyseDefect c s2 true = (stRaw, s') ∧
+      s2.numIter = s.numIter + 1 ∧ s2.defPrev = s.defCur ∧ s2.numStag = s.numStag ∧ s2.defInit = s.defInit ∧
+      (calcDef c (s.numIter + 1) = true → s2.defCur = d ∧ s2.curFin = fin) ∧
+      (calcDef c (s.numIter + 1) = false → s2.defCur = s.defCur ∧ s2.curFin = s.curFin) ∧
+      ((st = stRaw ∧ (st = .success → calcDef c (s.numIter + 1) = true)) ∨
+        (stRaw = .success ∧ st = .maxIter ∧ calcDef c (s.numIter + 1) = false)) := by
+  unfold setNewDefect at h
+  simp only at h
+  rcases hraw : setNewDefectRaw c s fin d with ⟨stRaw, sR⟩
+  rw [hraw] at h
+  unfold setNewDefectRaw at hraw
+  simp only at hraw
+  by_cases hc : calcDef c (s.numIter + 1) = true
+  · rw [hc] at h
+    simp only [hc] at hraw
+    simp only [Bool.not_true, Bool.false_and, Bool.false_eq_true, ↓reduceIte, Prod.mk.injEq] at h hraw
+    obtain ⟨h1, h2⟩ := h
+    subst h1; subst h2
+    exact ⟨_, stRaw, hraw, rfl, rfl, rfl, rfl, fun _ => ⟨rfl, rfl⟩, fun e => absurd (hc.symm.trans e) (by decide),
+      Or.inl ⟨rfl, fun _ => hc⟩⟩
+  · have hc' : calcDef c (s.numIter + 1) = false := by simpa using hc
+    rw [hc'] at h
+    simp only [hc'] at hraw
+    simp only [Bool.not_false, Bool.true_and, decide_eq_true_eq, Bool.false_eq_true, ↓reduceIte] at h hraw
+    by_cases hs : stRaw = .success
+    · subst hs
+      simp only [↓reduceIte, Prod.mk.injEq] at h
+      obtain ⟨h1, h2⟩ := h
+      subst h1; subst h2
+      exact ⟨_, .success, hraw, rfl, rfl, rfl, rfl, fun e => absurd (hc'.symm.trans e) (by decide), fun _ => ⟨rfl, rfl⟩,
+        Or.inr ⟨rfl, rfl, hc'⟩⟩
+    · rw [if_neg hs] at h
+      simp only [Prod.mk.injEq] at h
+      obtain ⟨h1, h2⟩ := h
+      subst h1; subst h2
+      exact ⟨_, stRaw, hraw, rfl, rfl, rfl, rfl, fun e => absurd (hc'.symm.trans e) (by decide), fun _ => ⟨rfl, rfl⟩,
+        Or.inl ⟨rfl, fun e => absurd e hs⟩⟩
+
 /-- bookkeeping of `_set_new_defect` -/
 theorem setNew_frame (c : Config α) (s s' : State α) (fin : Bool) (d : α) (st : Status)
     (h : setNewDefect c s fin d = (st, s')) :
     s'.numIter = s.numIter + 1 ∧ s'.defInit = s.defInit ∧ s'.defPrev = s.defCur ∧
       (calcDef c (s.numIter + 1) = true → s'.defCur = d ∧ s'.curFin = fin) ∧
       (calcDef c (s.numIter + 1) = false → s'.defCur = s.defCur ∧ s'.curFin = s.curFin) := by
-  unfold setNewDefect at h
-  have hf := analyse_frame c _ _ _ _ h
-  obtain ⟨h1, h2, h3, h4, h5⟩ := hf
-  by_cases hc : calcDef c (s.numIter + 1) = true
-  · simp_all
-  · simp_all
+  obtain ⟨s2, stRaw, ha, hn, hp, _, hi, hc1, hc2, _⟩ := setNew_analyse c s s' fin d st h
+  obtain ⟨h1, h2, h3, h4, h5⟩ := analyse_frame c _ _ _ _ ha
+  refine ⟨by omega, by rw [h1, hi], by rw [h3, hp], fun hc => ?_, fun hc => ?_⟩
+  · have := hc1 hc
+    exact ⟨by rw [h2, this.1], by rw [h5, this.2]⟩
+  · have := hc2 hc
+    exact ⟨by rw [h2, this.1], by rw [h5, this.2]⟩
+
+theorem calcDef_false_iters (c : Config α) (k : Nat) (h : calcDef c k = false) : c.maxIter ≤ c.minIter := by
+  unfold calcDef at h
+  simp only [Bool.or_eq_false_iff, decide_eq_false_iff_not] at h
+  omega
+
+/-- complete reading of a `_set_new_defect` step in terms of the resulting state `s'`: `stRaw` is the verdict of
+    `_analyse_defect`; the reported status equals it, except that a `success` on a defect that was not computed is
+    reported as `max_iter` -/
+theorem setNew_spec (c : Config α) (s s' : State α) (fin : Bool) (d : α) (st : Status)
+    (h : setNewDefect c s fin d = (st, s')) :
+    ∃ stRaw : Status,
+      (stRaw = .aborted ↔ s'.curFin = false) ∧
+      (stRaw = .diverged ↔ s'.curFin = true ∧ Diverged c s'.defInit s'.defCur) ∧
+      (stRaw = .success ↔ s'.curFin = true ∧ ¬ Diverged c s'.defInit s'.defCur ∧ c.minIter ≤ s'.numIter ∧
+        Converged c s'.defInit s'.defCur) ∧
+      (stRaw = .maxIter ↔ s'.curFin = true ∧ ¬ Diverged c s'.defInit s'.defCur ∧ c.minIter ≤ s'.numIter ∧
+        ¬ Converged c s'.defInit s'.defCur ∧ c.maxIter ≤ s'.numIter) ∧
+      (stRaw = .stagnated → 0 < c.minStag ∧ c.stagRate * s'.defPrev ≤ s'.defCur ∧ s'.numStag = s.numStag + 1 ∧
+        c.minStag ≤ s'.numStag ∧ s'.numIter < c.maxIter ∧ c.minIter ≤ s'.numIter ∧
+        ¬ Converged c s'.defInit s'.defCur ∧ ¬ Diverged c s'.defInit s'.defCur) ∧
+      stRaw ≠ .undefined ∧
+      ((st = stRaw ∧ (st = .success → calcDef c (s.numIter + 1) = true)) ∨
+        (stRaw = .success ∧ st = .maxIter ∧ calcDef c (s.numIter + 1) = false)) := by
+  obtain ⟨s2, stRaw, ha, _, _, hs, _, _, _, hcase⟩ := setNew_analyse c s s' fin d st h
+  obtain ⟨f1, f2, f3, f4, f5⟩ := analyse_frame c _ _ _ _ ha
+  have hsp := analyse_spec c _ _ _ _ ha
+  rw [← f1, ← f2, ← f3, ← f4, ← f5, hs] at hsp
+  obtain ⟨h1, h2, h3, h4, h5, _, h7⟩ := hsp
+  exact ⟨stRaw, h1, h2, h3, h4, fun e => by have := h5 e; exact ⟨this.2.1, this.2.2.1, this.2.2.2.1,
+    this.2.2.2.2.1, this.2.2.2.2.2.1, this.2.2.2.2.2.2.1, this.2.2.2.2.2.2.2.1, this.2.2.2.2.2.2.2.2⟩, h7, hcase⟩
 
 /-- bookkeeping of `_update_defect` -/
 theorem update_frame (c : Config α) (s s' : State α) (fin : Bool) (d : α) (st : Status)
@@ -94,15 +168,24 @@ def StagInv (c : Config α) (s : State α) (tr : List α) : Prop :=
 theorem stagRun_cons (c : Config α) (d1 d0 : α) (rest : List α) :
     stagRun c (d1 :: d0 :: rest) = if c.stagRate * d0 ≤ d1 then stagRun c (d0 :: rest) + 1 else 0 := rfl
 
-/-- the step function as `analyseDefect` of an intermediate state -/
-theorem ctlStep_eq (c : Config α) (upd : Bool) (s : State α) (fin : Bool) (d : α) :
-    ∃ s2 : State α, ctlStep c upd s fin d = analyseDefect c s2 true ∧ s2.numIter = s.numIter + 1 ∧
-      s2.defPrev = s.defCur ∧ s2.numStag = s.numStag ∧ s2.defInit = s.defInit := by
-  unfold ctlStep
+/-- the step function as `analyseDefect` of an intermediate state; `stRaw` is what `_analyse_defect` returned, which
+    differs from the reported status only for a `success` on a defect that was not computed (reported `max_iter`) -/
+theorem ctlStep_eq (c : Config α) (upd : Bool) (s s' : State α) (fin : Bool) (d : α) (st : Status)
+    (h : ctlStep c upd s fin d = (st, s')) :
+    ∃ (s2 : State α) (stRaw : Status), analyseDefect c s2 true = (stRaw, s') ∧ s2.numIter = s.numIter + 1 ∧
+      s2.defPrev = s.defCur ∧ s2.numStag = s.numStag ∧ s2.defInit = s.defInit ∧
+      (st = stRaw ∨ (stRaw = .success ∧ st = .maxIter ∧ upd = false ∧ calcDef c (s.numIter + 1) = false)) := by
+  unfold ctlStep at h
   cases upd
-  · refine ⟨_, rfl, ?_⟩
-    by_cases hc : calcDef c (s.numIter + 1) = true <;> simp [hc]
-  · exact ⟨_, rfl, rfl, rfl, rfl, rfl⟩
+  · simp only [Bool.false_eq_true, ↓reduceIte] at h
+    obtain ⟨s2, stRaw, ha, hn, hp, hs, hi, _, _, hcase⟩ := setNew_analyse c s s' fin d st h
+    refine ⟨s2, stRaw, ha, hn, hp, hs, hi, ?_⟩
+    rcases hcase with ⟨e, _⟩ | ⟨e1, e2, e3⟩
+    · exact Or.inl e
+    · exact Or.inr ⟨e1, e2, rfl, e3⟩
+  · simp only [↓reduceIte] at h
+    unfold updateDefect at h
+    exact ⟨_, st, h, rfl, rfl, rfl, rfl, Or.inl rfl⟩
 
 theorem analyse_inv (c : Config α) (s2 s' : State α) (st : Status) (rest : List α)
     (h : analyseDefect c s2 true = (st, s'))
@@ -121,8 +204,13 @@ theorem analyse_inv (c : Config α) (s2 s' : State α) (st : Status) (rest : Lis
 theorem ctlStep_inv (c : Config α) (upd : Bool) (s s' : State α) (fin : Bool) (d : α) (st : Status) (tr : List α)
     (hinv : StagInv c s tr) (h : ctlStep c upd s fin d = (st, s')) (hst : st = .progress ∨ st = .stagnated) :
     StagInv c s' (s'.defCur :: tr) := by
-  obtain ⟨s2, he, hn, hp, hs, _⟩ := ctlStep_eq c upd s fin d
-  rw [he] at h
+  obtain ⟨s2, stRaw, ha, hn, hp, hs, _, hcase⟩ := ctlStep_eq c upd s s' fin d st h
+  have hraw : st = stRaw := by
+    rcases hcase with e | ⟨_, e, _, _⟩
+    · exact e
+    · rcases hst with e' | e' <;> rw [e'] at e <;> cases e
+  subst hraw
+  have h := ha
   obtain ⟨hhead, hzero, hle⟩ := hinv
   cases tr with
   | nil => simp at hhead
@@ -202,10 +290,16 @@ theorem analyse_progress_bound (c : Config α) (s s' : State α) (chk : Bool)
 
 theorem setNew_progress_bound (c : Config α) (s s' : State α) (fin : Bool) (d : α)
     (h : setNewDefect c s fin d = (.progress, s')) : s'.numIter < max c.minIter c.maxIter := by
-  have hf := setNew_frame c s s' fin d _ h
-  unfold setNewDefect at h
-  have := analyse_progress_bound c _ _ _ h
-  by_cases hc : calcDef c (s.numIter + 1) = true <;> simp_all
+  have h' : ctlStep c false s fin d = (.progress, s') := h
+  obtain ⟨s2, stRaw, ha, hn, _, _, _, hcase⟩ := ctlStep_eq c false s s' fin d _ h'
+  have hf := analyse_frame c _ _ _ _ ha
+  have hraw : stRaw = .progress := by
+    rcases hcase with e | ⟨_, e, _, _⟩
+    · exact e.symm
+    · cases e
+  subst hraw
+  have := analyse_progress_bound c _ _ _ ha
+  omega
 
 /-- `_set_initial_defect` -/
 theorem setInitial_spec (c : Config α) (prev : State α) (fin : Bool) (d : α) (st : Status) (s : State α)
@@ -246,9 +340,13 @@ theorem feed_last_stagnated (c : Config α) (upd : Bool) (ds : List (Bool × α)
     · rw [feed_nonprogress c upd st1 s1 _ ds hp] at hlast ⊢
       simp only [List.getLast?_singleton, Option.some.injEq] at hlast
       subst hlast
-      obtain ⟨s2, he, _, _, _, _⟩ := ctlStep_eq c upd s fin d
-      rw [he] at hr
-      have := (analyse_spec c _ _ _ _ hr).2.2.2.2.1 rfl
+      obtain ⟨s2, stRaw, ha, _, _, _, _, hcase⟩ := ctlStep_eq c upd s s1 fin d _ hr
+      have hraw : stRaw = .stagnated := by
+        rcases hcase with e | ⟨_, e, _, _⟩
+        · exact e.symm
+        · cases e
+      subst hraw
+      have := (analyse_spec c _ _ _ _ ha).2.2.2.2.1 rfl
       exact ⟨this.2.1, this.2.2.2.2.1⟩
 
 /-- `_set_initial_defect` overwrites the whole convergence-control state: what the previous solve left is irrelevant -/
@@ -317,12 +415,16 @@ theorem feed_last_step (c : Config α) (upd : Bool) (ds : List (Bool × α)) :
 theorem ctlStep_numIter (c : Config α) (upd : Bool) (s s' : State α) (fin : Bool) (d : α) (st : Status)
     (h : ctlStep c upd s fin d = (st, s')) :
     s'.numIter = s.numIter + 1 ∧ (st = .progress → s'.numIter < max c.minIter c.maxIter) := by
-  obtain ⟨s2, he, hn, _, _, _⟩ := ctlStep_eq c upd s fin d
-  rw [he] at h
-  have hf := analyse_frame c _ _ _ _ h
+  obtain ⟨s2, stRaw, ha, hn, _, _, _, hcase⟩ := ctlStep_eq c upd s s' fin d st h
+  have hf := analyse_frame c _ _ _ _ ha
   refine ⟨by omega, fun hp => ?_⟩
   subst hp
-  have := analyse_progress_bound c _ _ _ h
+  have hraw : stRaw = .progress := by
+    rcases hcase with e | ⟨_, e, _, _⟩
+    · exact e.symm
+    · cases e
+  subst hraw
+  have := analyse_progress_bound c _ _ _ ha
   omega
 
 /-- iteration count at the end of a `feed` that started with fewer than `max(min_iter, max_iter)` iterations (or none) -/
